@@ -38,8 +38,22 @@ class RConn(Conn):
         return not self.declined[n]
 
 
+class TickingClock:
+    """SendingTime source that advances by one millisecond per message (so an OrigSendingTime taken
+    from the wrong transmission is visible)."""
+
+    def __init__(self):
+        self.n = 0
+
+    def __call__(self):
+        self.n += 1
+        return "20240101-00:00:%02d.%03d" % (self.n // 1000, self.n % 1000)
+
+
 def setup(I, slots, state, symfirst=False):
     install_loop()
+    from asyncfix.codec import Codec
+    Codec.current_datetime = staticmethod(TickingClock())
     db = FakeDB()
     j = db.journaler()
     c = RConn(I, j)
@@ -196,5 +210,5 @@ def cells(tier):
 ASSUMPTIONS = ["the ResendRequest itself carries the expected MsgSeqNum and correct CompIDs (C04 / C11 cover the rest)",
                "journals are built by real sends from ACTIVE; holes are cut out with a DELETE on the journal database",
                "reply oracle: contiguous chain of retransmissions (own number, PossDupFlag, OrigSendingTime, identical body) and forward gap fills covering exactly [BeginSeqNo, min(EndSeqNo, last sent)]; gap fills need not be merged maximally"]
-STUBS = ["transport -> recording Writer", "sqlite3 -> FakeSQLite", "clock fixed", "should_replay -> symbolic bool per message"]
+STUBS = ["transport -> recording Writer", "sqlite3 -> FakeSQLite", "SendingTime clock advancing 1 ms per message", "should_replay -> symbolic bool per message"]
 OUTSIDE = ["journals longer than 4 messages", "starting numbers above 6 (one decimal digit)", "concurrent sends during the replay (C14)"]
